@@ -34,7 +34,7 @@ ASSUMPTIONS = [
     "reference serializer in pbt/props/c16.py (dataclass field order, mashumaro's documented scalar encodings)",
     "the AST_TEST dialect's own output is not modelled (only its isolation); corrupt-payload errors may be any exception",
 ]
-FLOORS = {"programs:failing-serialization": 0.1, "programs:failing-deserialization": 0.2}
+FLOORS = {"programs:failing-serialization": 0.08, "programs:failing-deserialization": 0.2}
 
 O_SKIP, O_SORT, O_EXPL, O_TEST, O_INDEX, O_DIALECT, O_OMIT = 1, 2, 4, 8, 16, 32, 64
 FMTS = ["dict", "json", "msgpack", "yaml"]
@@ -164,6 +164,8 @@ def ref_position(p: Any, mask: int, shift: bool) -> dict:
         return _finish("CodeRange", d, mask)
     if isinstance(p, O.XMLPath):
         return _finish("XMLPath", {"xpath": p.xpath}, mask)
+    if isinstance(p, O.EntireSourcePosition):
+        return _finish("EntireSourcePosition", {}, mask)
     if isinstance(p, O.PositionSet):
         return _finish("PositionSet", {"positions": [ref_position(x, mask, shift) for x in p.positions]}, mask)
     raise ValueError(type(p))
@@ -312,7 +314,30 @@ def check_program(data: dict, lab: Labels) -> None:
     del dp
     state = {"optioned": False, "failed": False, "n": 0}
 
+    owned: dict[int, dict] = {}
+
     def probes(after: str) -> None:
+        cur = state.pop("cur", None)
+        if cur is not None and cur[1] is not None:
+            fresh = options(cur[0])[0]
+            require(cur[1] == fresh, "callers-options-mapping-modified",
+                    f"after {after}: {sorted(map(str, cur[1]))} vs {sorted(map(str, fresh))}")
+            # what the caller does to its mapping afterwards is no business of later calls
+            from pyoak.serialize import SerializationOption
+
+            extra = SerializationOption.SKIP_CLASS if SerializationOption.SKIP_CLASS not in cur[1] else SerializationOption.SORT_KEYS
+            had = extra in cur[1]
+            if not had:
+                cur[1][extra] = True
+            try:
+                _probes(after + " (+ the caller adds an option to its mapping)")
+            finally:
+                if not had:
+                    del cur[1][extra]
+            return
+        _probes(after)
+
+    def _probes(after: str) -> None:
         got = ordered(probe.as_dict())
         require(got == ref_probe, "options-leaked-into-later-serialization",
                 f"after {after}: {first_difference(json.loads(got), json.loads(ref_probe))}")
@@ -333,7 +358,14 @@ def check_program(data: dict, lab: Labels) -> None:
             if fmt in ("json", "msgpack"):
                 mask &= ~(O_DIALECT | O_OMIT)  # mashumaro dialects are not supported by these front-ends
             opts, dialect = options(mask)
+            if opts is not None:
+                # the options mapping belongs to the caller: one object per option set is re-used for
+                # every call of the program with that set
+                opts = owned.setdefault(mask, opts)
+                lab.tag_if(state.get("used", {}).get(mask, 0) >= 1, "options-object-reused")
+                state.setdefault("used", {})[mask] = state.get("used", {}).get(mask, 0) + 1
             state["optioned"] = state["optioned"] or bool(mask)
+            state["cur"] = (mask, opts)
         if kind == "ser":
             bombs = sorted({n.bomb.tag for n in T.live_nodes(node) if type(n).__name__ == "BombNode"})
             armed = None
@@ -394,6 +426,7 @@ def check_program(data: dict, lab: Labels) -> None:
             if fault or where % 2 == 0:
                 node.detach()  # so that deserialization descends (and meets the fault)
             desc = f"call {state['n']} from_{fmt} options={mask} corrupt={how if did else 0} bomb_de={sorted(Bomb.armed_de)}"
+            state["cur"] = (mask, opts)
             try:
                 res = _call_de(type(node), fmt, wire, opts, dialect)
                 del res
